@@ -207,8 +207,78 @@ class Canon(object):
     def hit(self, rule):
         self.count[rule] = self.count.get(rule, 0) + 1
 
+    def propagate(self, fn):
+        """N24  a local assigned exactly once from a call-free expression over names that are themselves never re-assigned
+        (parameters that are never assigned, other such locals) and constants -- or len() of such a name -- is replaced by that
+        expression wherever it is read: `key = (sym, state)`, `window_len = len(window)`, `longer = a > b`"""
+        if any(isinstance(n, (ast.FunctionDef, ast.AsyncFunctionDef, ast.Lambda, ast.ClassDef, ast.Global, ast.Nonlocal)) for n in ast.walk(fn) if n is not fn):
+            return
+        if any(isinstance(n, ast.Call) and isinstance(n.func, ast.Name) and n.func.id in ('locals', 'vars') for n in ast.walk(fn)):
+            return
+        stores = {}
+        for n in ast.walk(fn):
+            if isinstance(n, ast.Name) and isinstance(n.ctx, (ast.Store, ast.Del)):
+                stores[n.id] = stores.get(n.id, 0) + 1
+            elif isinstance(n, ast.ExceptHandler) and n.name:
+                stores[n.name] = stores.get(n.name, 0) + 2
+        params = set(a.arg for a in fn.args.args + fn.args.kwonlyargs)
+        stable = set(p for p in params if p not in stores)
+        defs = {}
+        for n in ast.walk(fn):
+            if isinstance(n, ast.Assign) and len(n.targets) == 1 and isinstance(n.targets[0], ast.Name) and stores.get(n.targets[0].id) == 1 \
+                    and n.targets[0].id not in params:
+                defs[n.targets[0].id] = n
+
+        def simple(e, ok_names):
+            if isinstance(e, ast.Constant):
+                return True
+            if isinstance(e, ast.Name):
+                return e.id in ok_names
+            if isinstance(e, (ast.Tuple,)):
+                return all(simple(x, ok_names) for x in e.elts)
+            if isinstance(e, ast.BinOp):
+                return simple(e.left, ok_names) and simple(e.right, ok_names)
+            if isinstance(e, ast.UnaryOp):
+                return simple(e.operand, ok_names)
+            if isinstance(e, ast.BoolOp):
+                return all(simple(x, ok_names) for x in e.values)
+            if isinstance(e, ast.Compare):
+                return simple(e.left, ok_names) and all(simple(x, ok_names) for x in e.comparators)
+            if isinstance(e, ast.Call) and isinstance(e.func, ast.Name) and e.func.id == 'len' and len(e.args) == 1 and not e.keywords:
+                return isinstance(e.args[0], ast.Name) and e.args[0].id in ok_names
+            return False
+        # single-assigned locals count as stable operands too (their own value does not change once set), loop targets do not
+        once = set(defs)
+        subst = {}
+        for name, d in defs.items():
+            v = d.value
+            if isinstance(v, (ast.Constant, ast.Name)):
+                continue            # plain copies / constants are left to the alias resolution of the rules
+            if simple(v, (stable | once) - {name}) and not any(isinstance(p, (ast.For, ast.While, ast.AsyncFor)) for p in _parents(fn, d)):
+                subst[name] = d
+        if not subst:
+            return
+
+        class T(ast.NodeTransformer):
+            def visit_Name(self_, n):
+                if isinstance(n.ctx, ast.Load) and n.id in subst:
+                    return copy.deepcopy(subst[n.id].value)
+                return n
+
+            def visit_Assign(self_, n):
+                if any(n is d for d in subst.values()):
+                    return ast.copy_location(ast.Pass(), n)
+                return self_.generic_visit(n)
+        for _ in range(3):
+            T().visit(fn)
+        self.hit('N24')
+        self.ex.visit(fn)
+
     def module(self, tree):
         tree = self.ex.visit(tree)
+        for fn in ast.walk(tree):
+            if isinstance(fn, (ast.FunctionDef, ast.AsyncFunctionDef)):
+                self.propagate(fn)
         tree.body = self.block(tree.body)
         ast.fix_missing_locations(tree)
         return tree
@@ -234,6 +304,13 @@ class Canon(object):
                     out.extend(self.expand([ast.copy_location(ast.If(test=ie.test, body=[ca], orelse=[cb]), s)]))
                     self.hit('N17')
                     continue
+            # N23 return <not / comparison / and-or of those>  ->  if <expr>: return True ; return False
+            if isinstance(s, ast.Return) and s.value is not None and _boolean(s.value) and not isinstance(s.value, ast.Constant):
+                t = ast.copy_location(ast.Return(value=ast.copy_location(ast.Constant(value=True), s)), s)
+                f_ = ast.copy_location(ast.Return(value=ast.copy_location(ast.Constant(value=False), s)), s)
+                out.extend(self.expand([ast.copy_location(ast.If(test=s.value, body=[t], orelse=[f_]), s)]))
+                self.hit('N23')
+                continue
             # N13 x = x
             if isinstance(s, ast.Assign) and len(s.targets) == 1 and isinstance(s.targets[0], ast.Name) and isinstance(s.value, ast.Name) \
                     and s.targets[0].id == s.value.id:
@@ -301,7 +378,7 @@ class Canon(object):
             if isinstance(s, ast.Try):
                 for h in s.handlers:
                     h.body = self.block(h.body)
-        body = self.tidy(body)
+        body = self.tidy(body, True)
         # right to left, so that what follows an `if` is already in canonical form when the `if` is looked at
         out = []
         for s in reversed(body):
@@ -309,9 +386,9 @@ class Canon(object):
                 out = self.norm_if(s, out)
             else:
                 out = [s] + out
-        return self.tidy(out)
+        return self.tidy(out, False)
 
-    def tidy(self, out):
+    def tidy(self, out, first=True):
         # N10
         res = []
         for s in out:
@@ -324,6 +401,21 @@ class Canon(object):
                     a = res.pop()
                     s.value.func.value = a.value
                     self.hit('N10')
+            res.append(s)
+        out = res
+        # N22  t = E ; if t / if not t  (t used nowhere else)  ->  if E / if not E
+        res = []
+        for s in out:
+            if first and res and self.fns and isinstance(s, ast.If) and isinstance(res[-1], ast.Assign) and len(res[-1].targets) == 1 \
+                    and isinstance(res[-1].targets[0], ast.Name):
+                t = res[-1].targets[0].id
+                core = s.test.operand if (isinstance(s.test, ast.UnaryOp) and isinstance(s.test.op, ast.Not)) else s.test
+                if isinstance(core, ast.Name) and core.id == t and \
+                        len([n for n in ast.walk(self.fns[-1]) if isinstance(n, ast.Name) and n.id == t]) == 2:
+                    a = res.pop()
+                    v = self.ex.visit(negate(a.value)) if core is not s.test else a.value
+                    s.test = v
+                    self.hit('N22')
             res.append(s)
         out = res
         # N5
@@ -410,6 +502,33 @@ def _chain(e):
     return isinstance(e, ast.Name)
 
 
+def _parents(root, node):
+    """ancestors of node inside root (nearest first)"""
+    path = []
+
+    def walk(n, trail):
+        if n is node:
+            path.extend(reversed(trail))
+            return True
+        for c_ in ast.iter_child_nodes(n):
+            if walk(c_, trail + [n]):
+                return True
+        return False
+    walk(root, [])
+    return path
+
+
+def _boolean(e):
+    """the expression is a bool by construction: not X, a comparison, or and/or of such"""
+    if isinstance(e, ast.UnaryOp) and isinstance(e.op, ast.Not):
+        return True
+    if isinstance(e, ast.Compare):
+        return True
+    if isinstance(e, ast.BoolOp):
+        return all(_boolean(v) for v in e.values)
+    return False
+
+
 def _single_jump(s):
     return len(s.body) == 1 and (isinstance(s.body[0], (ast.Break, ast.Continue)) or
                                  (isinstance(s.body[0], ast.Return) and (s.body[0].value is None or isinstance(s.body[0].value, (ast.Constant, ast.Name)))))
@@ -429,13 +548,22 @@ def _size(stmts):
 
 def canonicalise(trees, skip=()):
     """trees: dict name -> Module ast (modified in place); returns rule hit counts"""
+    from . import inline
     sigs = signatures([t for n, t in trees.items() if n not in skip])
     total = {}
-    for n, t in trees.items():
-        if n in skip:
-            continue
-        c = Canon(sigs)
-        trees[n] = c.module(t)
-        for k, v in c.count.items():
-            total[k] = total.get(k, 0) + v
+
+    def run():
+        for n, t in list(trees.items()):
+            if n in skip:
+                continue
+            c = Canon(sigs)
+            trees[n] = c.module(t)
+            for k, v in c.count.items():
+                total[k] = total.get(k, 0) + v
+    run()
+    # extracted private helpers are written back into their callers (inline.py), then the result is brought into canonical form again
+    n_inl = inline.inline_all(trees, skip=skip)
+    if n_inl:
+        total['INLINE'] = n_inl
+        run()
     return total
